@@ -278,6 +278,11 @@ def expr_text(n, depth=0, fn=None):
         return "%s%s" % (op, s) if not n.get("postfix") else "%s%s" % (s, op)
     if k == "BinaryOperator":
         return "(%s %s %s)" % (expr_text(n.get("lhs"), depth + 1, fn), n.get("op"), expr_text(n.get("rhs"), depth + 1, fn))
+    if k == "ArraySubscriptExpr":
+        return "%s[%s]" % (expr_text(n.get("base"), depth + 1, fn), expr_text(n.get("idx"), depth + 1, fn))
+    if k == "UserDefinedLiteral":
+        a = (n.get("args") or [None])[0]
+        return expr_text(a, depth + 1, fn) + "sv" if a is not None else "udl"
     if k == "CXXDependentScopeMemberExpr":
         b = n.get("base")
         return "%s.%s" % (expr_text(b, depth + 1, fn), n.get("name", "?")) if b is not None else n.get("name", "?")
